@@ -182,6 +182,12 @@ func (d *db) makeRoomForWrite() error {
 // switchToNewLog flushes the index of the current log file to disk, update the
 // readState hold by the db and then switch to a new log file.
 func (d *db) switchToNewLog() error {
+	// records written since the last sync() must be durable before the index that
+	// describes them is saved and before another file becomes the current log, a
+	// later sync() only covers the new log file
+	if err := d.mu.logFile.Sync(); err != nil {
+		return err
+	}
 	if err := d.saveIndex(); err != nil {
 		return err
 	}
